@@ -284,7 +284,32 @@ func gen(g *hx.Gen) {
 	cv.declare("dispatch.b", 4)
 	cv.declare("dispatch.s", 4)
 	defer cv.report()
-	n := g.Count(2500, 60000)
+	// blake2s around output byte 65504 = node 2047: in unknown-length mode the length field holds the magic 65535,
+	// so anything that derives "bytes left" from the length field instead of the running budget goes wrong exactly
+	// there; also the declared lengths next to the 16-bit limit, whose last node is short. A discarded Read jumps
+	// to just before the spot, then small Reads of every awkward size walk across 65504..65600 (and to EOF).
+	for _, length := range []int{0, 0, 65534, 65533, 65505, 65504, 65503} {
+		for _, chunk := range []int{1, 7, 31, 32, 33, 63, 64, 65, 200} {
+			start := 65504 - 40 - r.Intn(24)
+			if chunk == 1 {
+				start = 65504 - 5
+			}
+			ops := []string{fmt.Sprintf("w%d", 3), fmt.Sprintf("sk%d", start)}
+			for pos := start; pos < 65610; pos += chunk {
+				ops = append(ops, fmt.Sprintf("rd%d", chunk))
+				if chunk == 1 && pos > 65545 {
+					break
+				}
+			}
+			ops = append(ops, "rd40", "rd1")
+			kl := r.PickInt(0, 0, 16, 32)
+			g.Stat("node2047.s")
+			classify(cv, ops, length, 32, kl > 0, 3)
+			g.Emit("xof alg=s path=%s len=%d key=%s ops=%s data=%s", r.PickStr("sse4", "ssse3", "sse2", "generic"), length,
+				hx.Hex(r.Bytes(kl)), hx.JoinStrs(ops), hx.Hex(r.Bytes(3)))
+		}
+	}
+	n := g.Count(2400, 60000)
 	for i := 0; i < n; i++ {
 		alg := r.PickStr("b", "s")
 		size, bs, maxLen := 64, 128, 70000
